@@ -20,13 +20,14 @@ CONC = [("conc-counter", {"quick": ["-n", "60"], "thorough": ["-n", "3000"], "se
 CONCSRV = [("concsrv-counter", {"quick": ["-n", "12"], "thorough": ["-n", "600"], "search": ["-n", "100"]}),
            ("concsrv-map", {"quick": ["-n", "12"], "thorough": ["-n", "600"], "search": ["-n", "100"]}),
            ("concsrv-list", {"quick": ["-n", "12"], "thorough": ["-n", "600"], "search": ["-n", "100"]})]
+DOC = [("doc", {"quick": ["-n", "150"], "thorough": ["-n", "6000"], "search": ["-n", "1500"]})]
 PROPS = {
     "C14": {"slices": [("codec", {"quick": ["-n", "1500"], "thorough": ["-n", "60000"], "search": ["-n", "8000"]})],
             "trusted": ["encoding/json, google.golang.org/protobuf and mongo-driver/bson byte formats: exercised (every case goes through all three), not modelled",
                         "float64: the model's numbers are exact integers; faithful for |z| <= 2^53, non-integral floats are not generated"],
             "assumptions": ["lamport clocks below 2^63 (BSON has no uint64)", "snapshot operations: their body is covered by C10, not by the codec model"]},
-    "C10": {"slices": CRDT, "trusted": ["Go encoding/json (Marshal/Unmarshal of the snapshot structs) is exercised, not modelled byte by byte: the marshalled JSON is parsed and compared field by field with the model's marshalled form"], "assumptions": ["Document snapshots are not modelled yet"]},
-    "C03": {"slices": API, "trusted": [], "assumptions": ["Document is not modelled yet"]},
+    "C10": {"slices": CRDT + DOC, "trusted": ["Go encoding/json (Marshal/Unmarshal of the snapshot structs) is exercised, not modelled byte by byte: the marshalled JSON is parsed and compared field by field with the model's marshalled form"], "assumptions": ["Document snapshots: the tree is modelled, its marshalled form is not; restored Documents are compared by value and by continuation (Go oracle)"]},
+    "C03": {"slices": API + DOC, "trusted": [], "assumptions": ["Document: modelled and replayed (Model/Doc.v), compared with a plain JSON value by a Go oracle; its refinement to plain JSON is not proved"]},
     "C04": {"slices": [CRDT[2], API[2]], "trusted": [], "assumptions": ["order agreement ACROSS replicas rests on list convergence (C01, list instance not yet proved)"]},
     "C05": {"slices": WIRE, "trusted": SRV_TRUST, "assumptions": ["the composition of the proved ingredients over Net.v is not yet a theorem (C05_statement_list is a definition)"]},
     "C07": {"slices": WIREF, "trusted": SRV_TRUST, "assumptions": ["faults exercised: duplicated request, dropped response + retry; delayed (stale) responses are not driven", "C07_statement_list is a definition, not yet a theorem"]},
@@ -44,9 +45,11 @@ PROPS = {
     "C16": {"slices": WIRE, "trusted": SRV_TRUST, "assumptions": ["liveness of the Go code (no hang, no crash) is tested, not proved"]},
     "C17": {"slices": WIRE, "trusted": SRV_TRUST, "assumptions": ["ResetCollection is not modelled yet"]},
     "C18": {"slices": WIRE, "trusted": SRV_TRUST, "assumptions": ["realtime clients are not driven yet; publishes are recorded at the broker"]},
-    "C01": {"slices": CRDT, "trusted": [], "assumptions": ["clocks below the half-range wrap", "delivery in log order, whole transaction units"]},
+    "C19": {"slices": DOC, "trusted": ["github.com/wI2L/jsondiff (the edit script generator) is exercised, not modelled"],
+            "assumptions": ["PARTIAL: 'the result equals the target' and convergence of other replicas are decided by replay + oracle, not by a theorem (see Properties/C19.v)", "the REST endpoint PatchDocument is not driven"]},
+    "C01": {"slices": CRDT + DOC, "trusted": [], "assumptions": ["clocks below the half-range wrap", "delivery in log order, whole transaction units"]},
     "C02": {"slices": CRDT, "trusted": [], "assumptions": ["clocks below the half-range wrap"]},
-    "C09": {"slices": CRDT, "trusted": [], "assumptions": ["snapshot export/import is the identity on the model state (C10 carries the round trip)"]},
+    "C09": {"slices": CRDT + DOC, "trusted": [], "assumptions": ["snapshot export/import is the identity on the model state (C10 carries the round trip)"]},
     "C15": {
         "slices": [("time", {"quick": [], "thorough": [], "search": []})] + CRDT,
         "trusted": [],
